@@ -80,7 +80,7 @@ func (its *ordaMap) ExecuteRemote(op interface{}) (interface{}, errors.OrdaError
 }
 
 func (its *ordaMap) Put(key string, value interface{}) (interface{}, errors.OrdaError) {
-	if key == "" || value == nil {
+	if key == "" || types.HasNilValue(value) {
 		return nil, errors.DatatypeIllegalParameters.New(its.L(), "neither empty key nor null value is not allowed")
 	}
 	jsonSupportedType := types.ConvertToJSONSupportedValue(value)
